@@ -27,4 +27,6 @@ for cid in checks:
     res["checks"][cid] = out.strip().splitlines()[-2:]
     json.dump(res, open("/tmp/mut_out/res_ref_%s.json" % rid, "w"), indent=1)
 sh("git reset -q --hard && git clean -fdq", W)
+import shutil
+shutil.rmtree(V, ignore_errors=True)
 print(json.dumps(res, indent=1))
